@@ -160,6 +160,7 @@ theorem pCS_adj_gso : ∃ a, adjSolve .gso (pCS ℝ) = .ok a ∧ a.x = #[0, 1/2]
   exact ⟨a, ha, by rw [ax, hx], by rw [ad, hd]⟩
 
 theorem pCS_rows : RowsOK (pCS ℝ) := by
+  apply RowsOK.of_nodup
   intro i hi
   have : i = 0 ∨ i = 1 ∨ i = 2 := by have : i < 3 := hi; omega
   rcases this with rfl | rfl | rfl <;> simp [pCS, Array.getD]
@@ -206,6 +207,7 @@ theorem pCSQ_sqrt : SqrtExactP (pCS ℚ) := by
   · exact sqrtExact_of_eval _ (by decide +kernel)
 
 theorem pCSQ_rows : RowsOK (pCS ℚ) := by
+  apply RowsOK.of_nodup
   intro i hi
   have : i = 0 ∨ i = 1 ∨ i = 2 := by have : i < 3 := hi; omega
   rcases this with rfl | rfl | rfl <;> simp [pCS, Array.getD]
@@ -300,6 +302,7 @@ theorem pCVdot_dense : pCVdot.dense = #[#[6, 8], #[3, 4], #[6, 8]] := by
   refine ⟨?_, ?_, ?_⟩ <;> rfl
 
 theorem pCV_rows : RowsOK pCV := by
+  apply RowsOK.of_nodup
   intro i hi
   have : i = 0 ∨ i = 1 ∨ i = 2 := by have : i < 3 := hi; omega
   rcases this with rfl | rfl | rfl <;> simp [pCV, Array.getD]
